@@ -130,6 +130,62 @@ def work_places(item):
     return out
 
 
+def forms() -> list:
+    """(name, spec text, satisfying word, lazy): constraint FORMS whose evaluation could lose a satisfied part - quantifiers over m matches
+    of which only the LAST / FIRST satisfies, connectives whose first operand fails, in eager and in lazy compilation"""
+    out = []
+    G = '<start> ::= <d>{M} ";" <e>\n<d> ::= "0" | "1"\n<e> ::= "0" | "1"\n'
+    for m in (1, 2, 3, 5, 8):
+        g = G.replace("{M}", "{%d}" % m)
+        last = "0" * (m - 1) + "1" + ";1"
+        first = "1" + "0" * (m - 1) + ";1"
+        for lazy in (False, True):
+            out.append((f"any_identifier_last_of_{m}", g + "where any(int(x) >= 1 for x in *<d>)\n", last, lazy))
+            out.append((f"any_identifier_first_of_{m}", g + "where any(int(x) >= 1 for x in *<d>)\n", first, lazy))
+            out.append((f"any_nonterminal_last_of_{m}", g + "where any(int(<q>) >= 1 for <q> in *<d>)\n", last, lazy))
+            out.append((f"exists_last_of_{m}", g + "where exists <q> in <d>: int(<q>) >= 1\n", last, lazy))
+            out.append((f"all_of_{m}", g + "where all(int(x) <= 1 for x in *<d>)\n", last, lazy))
+            out.append((f"forall_of_{m}", g + "where forall <q> in <d>: int(<q>) <= 1\n", last, lazy))
+            out.append((f"or_second_holds_{m}", g + "where int(<e>) > 5 or int(<e>) == 1\n", last, lazy))
+            out.append((f"or_first_holds_{m}", g + "where int(<e>) == 1 or int(<e>) > 5\n", last, lazy))
+            out.append((f"and_both_hold_{m}", g + "where int(<e>) == 1 and int(<e>) < 5\n", last, lazy))
+            out.append((f"or_of_quantifiers_{m}", g + "where any(int(x) > 5 for x in *<d>) or any(int(x) >= 1 for x in *<d>)\n", last, lazy))
+            out.append((f"nested_any_{m}", g + "where any(any(int(y) >= int(x) + 1 for y in *<d>) for x in *<d>)\n", "0" * max(m - 1, 1) + "1;1" if m > 1 else None, lazy))
+    return [f for f in out if f[2] is not None]
+
+
+def work_form(item):
+    from fandango.evolution.evaluation import Evaluator
+    name, text, word, lazy = item
+    out = {"h": 1, "r": 0, "order": 0, "fitness": "?", "yielded": 0, "viol": []}
+    try:
+        spec = build(text, lazy=lazy)
+    except Exception as e:
+        return {"internal": f"form {name} rejected: {e!r}", "case": item}
+    tree = spec.grammar.parse(word)
+    if tree is None:
+        if name.startswith("nested_any") :
+            return out
+        return {"internal": f"form {name}: witness {word!r} does not parse", "case": item}
+    ev = Evaluator(spec.grammar, spec.constraints, 1.0, 5, 1.0)
+    gen = ev.evaluate_individual(tree)
+    yielded = []
+    try:
+        while True:
+            yielded.append(next(gen))
+    except StopIteration as st:
+        fitness = st.value[0]
+    out["fitness"] = repr(fitness)
+    out["yielded"] = len(yielded)
+    if len(yielded) != 1:
+        out["viol"].append({"kind": "satisfying_tree_not_accepted", "form": name, "lazy": lazy, "fitness": repr(fitness), "spec": text, "word": word,
+                            "sig": f"not_accepted:form:{name.rsplit('_', 1)[0]}:lazy={lazy}"})
+    got = [str(t) for t in spec.parse(word)]
+    if got != [word]:
+        out["viol"].append({"kind": "api_parse_rejects_satisfying_word", "form": name, "lazy": lazy, "spec": text, "word": word, "sig": f"parse_rejects:form:{name.rsplit('_', 1)[0]}:lazy={lazy}"})
+    return out
+
+
 def work_history(item):
     """the same question asked of ONE spec object after an earlier search with extra constraints: the witness satisfies
     every constraint of the spec, so the second search (which gets it in its initial population) must report it"""
@@ -171,6 +227,8 @@ def run(ctx: Ctx) -> None:
     results += pmap_tagged(work_places, places, chunk=4)
     hist = [(h, r) for h in range(0, 4) for r in range(0, 4) if h + r > 0]
     results += pmap_tagged(work_history, hist, chunk=2)
+    fs = forms()
+    results += pmap_tagged(work_form, fs, chunk=4)
     fitness_values = set()
     api_runs = 0
     for res in results:
@@ -183,7 +241,7 @@ def run(ctx: Ctx) -> None:
             ctx.violation(v)
     ctx.coverage.update(
         states=len(items) + len(places) + len(hist), transitions=len(items) + len(places) + len(hist) + api_runs, traces_validated_against_impl=len(items) + len(places) + len(hist) + api_runs,
-        match_places=M, history_configurations=len(hist),
+        match_places=M, history_configurations=len(hist), constraint_forms=len(fs),
         samples=[{"h": 1, "r": 5, "order": 0, "spec": spec_text(1, 5, 0)}], exhaustive=True,
         H=H, R=R, orders=3, api_runs=api_runs, distinct_fitness_values=sorted(fitness_values),
         rule="configuration = (h trivially-true where clauses, r computed repetitions, declaration order); the full lattice 0..H x 0..R x 3 is walked; "
